@@ -40,6 +40,10 @@ DecodeClauses(e) ==
     \cup (IF e.long.same_object \/ e.long.foreign THEN {"C05.shared_instance"} ELSE {})
     \cup (IF \E m \in memo : m[1] = fixed /\ m[2] = e.x /\ m[3] # <<e.long.err, e.long.rx, e.long.ract>>
           THEN {"C05.create_flag_or_repetition_dependent"} ELSE {})
+    \* C15: what a decode returns under fixed variables is a design of the restricted problem
+    \cup (IF fixed # <<>> /\ e.long.err = "" /\ Len(e.long.rx) = Len(FreeVars(fixed)) /\ Len(e.long.ract) = Len(e.long.rx)
+             /\ [i \in DOMAIN e.long.rx |-> IF e.long.ract[i] THEN e.long.rx[i] ELSE -1] \notin Upper(fixed)
+          THEN {"C15.decode_outside_restricted_problem"} ELSE {})
 
 EnumClauses(e) ==
     LET R == SS(e.rows) IN
